@@ -103,6 +103,9 @@ package stick
 //@ pred SM(dummy int) = true
 //@ pred scopesOK(s *scopeStack) = len(s.scopes) >= 1 && (forall i :: 0 <= i && i < len(s.scopes) ==> s.scopes[i] != nil)
 //@ pred top(s *scopeStack) = s.scopes[len(s.scopes) - 1]
+// C07 frame: variable maps are written by Set and setLocal only; every other function of the library writes a
+// map[string]Value only if it allocated that map itself (with-hash contexts, loop metadata, All(), filter results)
+//@ mapframe map[string]Value only stick.(*scopeStack).Set, stick.(*scopeStack).setLocal
 
 // Get: innermost binding first.
 //@ func stick.(*scopeStack).Get
@@ -140,7 +143,7 @@ package stick
 //@ func stick.(*scopeStack).push
 //@   ensures others: forall p trig :: p != s ==> fld("stick.scopeStack", "scopes", p) == old(fld("stick.scopeStack", "scopes", p))
 //@   ensures len: len(s.scopes) == old(len(s.scopes)) + 1
-//@   ensures fresh: fresh(top(s)) && top(s) != nil && (forall k :: !mdom("map[string]Value", top(s), k))
+//@   ensures fresh: fresh(top(s)) && live(top(s)) && top(s) != nil && (forall k :: !mdom("map[string]Value", top(s), k))
 //@   ensures below: forall i :: 0 <= i && i < old(len(s.scopes)) ==> s.scopes[i] == old(s.scopes[i])
 //@   ensures maps: forall m, k :: allocated(m) ==> mdom("map[string]Value", m, k) == old(mdom("map[string]Value", m, k)) && mval("map[string]Value", m, k) == old(mval("map[string]Value", m, k))
 
@@ -274,6 +277,15 @@ package stick
 //@   loop 1 invariant frame: xinv(s) && s.scope == old(s.scope) && len(s.scope.scopes) == old(len(s.scope.scopes)) && (forall i trig :: 0 <= i && i < len(s.scope.scopes) ==> s.scope.scopes[i] == old(s.scope.scopes[i])) && s.name == old(s.name) && s.current == old(s.current) && s.env == old(s.env) && len(s.blocks) >= old(len(s.blocks)) && (forall p trig :: allocated(p) && p != old(s.scope) ==> fld("stick.scopeStack", "scopes", p) == old(fld("stick.scopeStack", "scopes", p))) && s.out == old(s.out) && (forall w trig :: allocated(w) && w != ref(old(s.out)) ==> rbuflen(w) == old(rbuflen(w)) && rbufdata(w) == old(rbufdata(w))) && (wfail() ==> old(wfail())) && (wafterfail() ==> old(wafterfail()) || old(wfail()))
 
 //@ func stick.(*state).walkForNode
+// C07: the loop's key, value and loop variables are bound with setLocal in the scope pushed by this very iteration
+// (a fresh map, dropped again by the deferred pop), never in a scope that existed before
+//@   at "s.scope.setLocal(kn, k)" own: fresh(top(s.scope))
+//@   at "s.scope.setLocal(vn, v)" own: fresh(top(s.scope))
+//@   at "s.scope.setLocal(\"loop\", loopValue)" own: fresh(top(s.scope))
+// C06: the loop variable carries the metadata Iterate computed for this element (proved correct in Iterate, C16)
+//@   at "s.scope.setLocal(\"loop\", loopValue)" meta: loopValue["index"] == box(l.Index, "int") && loopValue["index0"] == box(l.Index0, "int") && loopValue["revindex"] == box(l.Revindex, "int") && loopValue["revindex0"] == box(l.Revindex0, "int") && loopValue["first"] == box(l.First, "bool") && loopValue["last"] == box(l.Last, "bool") && loopValue["length"] == box(l.Length, "int") && (hasParent ==> loopValue["parent"] == parent) && (!hasParent ==> !in(loopValue, "parent"))
+// C06/C07: what the body sees
+//@   at "s.walk(node.Body)" bound: fresh(top(s.scope)) && in(top(s.scope), "loop") && (vn != "loop" ==> in(top(s.scope), vn) && top(s.scope)[vn] == v) && (kn != "" && kn != vn && kn != "loop" ==> in(top(s.scope), kn) && top(s.scope)[kn] == k)
 //@   propagates
 //@   ensures wfail: wfail() && !old(wfail()) ==> err != nil
 //@   ensures order: wafterfail() ==> old(wafterfail()) || old(wfail())
@@ -498,6 +510,9 @@ package stick
 
 //@ func stick.(*state).callMacro
 //@   propagates
+// C07/C11: parameters are bound with setLocal in the scope pushed by this call
+//@   at "s.scope.setLocal(name, nil)" own: fresh(top(s.scope))
+//@   at "s.scope.setLocal(name, args[i])" own: fresh(top(s.scope))
 // C08/C11: the value of a macro call is exactly what its body wrote into the private buffer
 //@   asserts captured: err == nil ==> istype(r0, "string") && unbox(r0, "string") == bufstr(buf)
 //@   ensures wfail: wfail() && !old(wfail()) ==> err != nil
